@@ -138,4 +138,10 @@ def entryMatch (n : PkgNode) (p : Pkg) : Option Bool :=
   | .ok none => none
   | .ok (some a) => if n.nameOk then some (decide (p.key = n.name) && a.eval p) else none
 
+/-- what one `GlsaDirSet` object yields, in order, for a directory of advisory files (each a list of `<package>`
+nodes), evaluated on `p`: `iter_vulnerabilities` walks the files, then the nodes, and builds every restriction from
+its node alone — the object keeps nothing between nodes, files or iterations -/
+def dirMatch (files : List (List PkgNode)) (p : Pkg) : List Bool :=
+  files.flatMap fun nodes => nodes.filterMap fun n => entryMatch n p
+
 end Pkgcore.C45
